@@ -22,7 +22,7 @@ def run(tier):
             ("c04_d2_str", consts(2, 2, 2, False, ops), exe_str),
             ("c04_d3_int", consts(3, 2, 2, True, ops), exe_int),
             # observable moves (std::string): two arrays, then an assignment from a named / temporary view of one to the other
-            ("c04_d2_str_views", consts(2, 2, 3, False, ["ctor_iota", "ctor_fill", "assign_view", "assign_rview", "assign_copy", "write"]), exe_str),
+            ("c04_d2_str_views", consts(2, 2, 3, False, ["ctor_iota", "ctor_fill", "assign_view", "assign_rview", "assign_copy", "write", "ctor_ref", "ctor_rref", "ctor_view"]), exe_str),
             # four-step histories over the value-transferring operations (move, then swap with the moved-from partner, ...)
             ("c04_d1_moves4", consts(1, 2, 4, True, ["ctor_iota", "ctor_default", "ctor_move", "assign_move", "assign_copy", "swap", "destroy"]), exe_int)]
     if tier == "thorough":
